@@ -14,6 +14,9 @@ def judge(c, s):
         return
     if s.usable is False:
         c.violation("unusable:" + s.id, "C13: after loading %s (%s) the context does not answer `1 + 1`" % (s.id, s.desc[:120]), lc.replay_body(s), found=True)
+    if s.oracle.get("staleNames"):
+        c.violation("stale:%s:%s" % (s.id, s.oracle["staleNames"][0]), "C13: after loading %s (%s) the names %s no longer denote what the database holds for them (something of a failed substance block was left behind)" % (s.id, s.desc[:100], s.oracle["staleNames"][:4]),
+                    lc.replay_body(s), found=True)
     if s.deterministic is False:
         c.violation("nondeterministic:" + s.id, "C13: two loads of %s give different databases" % s.id, lc.replay_body(s), found=True)
     # cycles must be reported, not followed: a scenario that is a pure cycle must name it
